@@ -101,6 +101,14 @@ def gen_cases(tier, seed):
         out.append({"seed": s, "mode": "odd_call_sites", "W": r.choice([1, 1, 2, 4]), "sched": r.choice(["default", "random"]), "max_errors": r.choice([0, None]),
                     "site": ["ipython_cell", "ipython_core_outer", "stdin", "frozen", "empty", "long", "ipython_core_inner", "percent"][i % 8], "nfail": r.choice([1, 2, 3]),
                     "progress": r.choice(["none", "none", "html"]), "depth": r.choice([0, 1, 2, 5])})
+    for i in range(max(16, n // 150)):
+        # (a) a call that keeps failing with one particular exception class (InterruptedError, BlockingIOError, TimeoutError, a user class, StopIteration ...) under
+        # retry=n: the run ends after n attempts whatever the class; (b) plan functions that themselves run a plan (nested uberjob.run), many at once
+        s = env.seed_for(seed, ID, tier, "retry_classes_nested", i)
+        r = random.Random(env.seed_for(s, "descriptor"))
+        out.append({"seed": s, "mode": "retry_classes" if i % 2 == 0 else "nested_runs", "W": r.choice([1, 2, 4]), "sched": r.choice(["default", "random"]), "retry": r.choice([2, 3, 5]),
+                    "exc": ["InterruptedError", "BlockingIOError", "TimeoutError", "ConnectionResetError", "StopIteration", "UserTransient", "MemoryError", "RecursionError"][(i // 2) % 8],
+                    "outer_W": r.choice([8, 64, 128, 128, 200]), "inner_W": r.choice([1, 1, 2]), "where": r.choice(["call", "mtime"])})
     for i in range(max(6, n // 150)):
         # hundreds of failing calls in one run that is allowed to go on, with a bundled display attached (which remembers only so many
         # exceptions): it ends like any other run
@@ -629,9 +637,111 @@ def run_odd_call_sites(desc):
     return res
 
 
+def run_retry_classes(desc):
+    """retry=n and a call (or a store's modified-time query) that fails with the same exception class every time: after n attempts the run raises. A retry
+    loop that does not count some class would go on for ever - the harness function gives up (and says so) after 40*n attempts."""
+    import datetime as dt
+
+    import uberjob
+    from uberjob import ValueStore
+
+    class UserTransient(Exception):
+        pass
+
+    cls = {"UserTransient": UserTransient}.get(desc["exc"]) or getattr(__import__("builtins"), desc["exc"])
+    n = desc["retry"]
+    attempts = [0]
+    gave_up = [False]
+
+    def failing(*a):
+        attempts[0] += 1
+        if attempts[0] > 40 * n:
+            gave_up[0] = True
+            raise SystemExit("harness: giving up")
+        raise cls(4, "interrupted") if issubclass(cls, OSError) else cls("again")
+
+    class S(ValueStore):
+        def read(self):
+            return 1
+
+        def write(self, v):
+            pass
+
+        def get_modified_time(self):
+            failing()
+            return dt.datetime(2020, 1, 1)
+
+    plan = uberjob.Plan()
+    registry = None
+    if desc["where"] == "mtime":
+        registry = uberjob.Registry()
+        x = plan.call(lambda: 1)
+        registry.add(x, S())
+        out = x
+    else:
+        out = plan.call(failing, plan.call(lambda: 1))
+    exc = None
+    W = Watch(desc)
+    with W:
+        try:
+            uberjob.run(plan, output=out, registry=registry, retry=n, max_workers=desc["W"], scheduler=desc["sched"], progress=None)
+        except BaseException as e:  # noqa
+            exc = e
+    res = {"status": "ok", "counters": {"retry_class_runs": 1}, "sets": {"retry_exception_classes": [desc["exc"]]}, "nontrivial": True,
+           "sig": f"retrycls|{desc['exc']}|{n}|{desc['where']}|{desc['W']}|{desc['sched']}"}
+    bad = None
+    if gave_up[0]:
+        bad = f"the failing {'call' if desc['where'] == 'call' else 'modified-time query'} was attempted more than {40 * n} times under retry={n} (it raises {desc['exc']} every time): this run would never end"
+    elif exc is None:
+        bad = f"run returned although its {'call' if desc['where'] == 'call' else 'modified-time query'} fails every time"
+    if bad:
+        res.update(status="violation", mechanism="hang", detail=f"[retry={n}, W={desc['W']}] {bad}")
+    return res
+
+
+def run_nested_runs(desc):
+    """Plan functions that run a plan themselves (uberjob.run inside a call), outer_W of them at the same time: every one of them returns."""
+    import uberjob
+
+    OW, IW = min(desc["outer_W"], 128), desc["inner_W"]
+    meet = threading.Barrier(OW)
+
+    def inner_job(i):
+        meet.wait(60)  # all OW calls are in flight (the outer run has all of its OW workers) before any of them starts its inner run
+        p = uberjob.Plan()
+        a = p.call(lambda: i)
+        b = p.call(lambda x: x + 1, a)
+        return uberjob.run(p, output=b, max_workers=IW, progress=None)
+
+    plan = uberjob.Plan()
+    outs = [plan.call(inner_job, i) for i in range(OW)]
+    box = {}
+
+    def go():
+        try:
+            box["res"] = uberjob.run(plan, output=outs, max_workers=OW, scheduler=desc["sched"], progress=None)
+        except BaseException as e:  # noqa
+            box["exc"] = e
+
+    W = Watch(desc)
+    with W:
+        go()
+    res = {"status": "ok", "counters": {"nested_run_cases": 1, "nested_runs": OW}, "sets": {"nested_outer_workers": [str(OW)]}, "nontrivial": True,
+           "sig": f"nested|{OW}|{IW}|{desc['sched']}"}
+    if "exc" in box:
+        res.update(status="violation", mechanism="hang", detail=f"[{OW} calls that each run an inner plan, outer max_workers={OW}, inner max_workers={IW}] run raised {box['exc']!r:.150}")
+    elif box.get("res") != [i + 1 for i in range(OW)]:
+        res.update(status="violation", mechanism="hang", detail=f"[{OW} nested runs] wrong result {str(box.get('res'))[:100]}")
+    return res
+
+
 def run_case(desc):
     if desc["mode"] == "cyclic":
         return run_cyclic(desc)
+    if desc["mode"] == "retry_classes":
+        return run_retry_classes(desc)
+    if desc["mode"] == "nested_runs":
+        return run_nested_runs(desc)
     if desc["mode"] == "odd_call_sites":
         return run_odd_call_sites(desc)
     if desc["mode"] == "interrupt_wait":
